@@ -214,8 +214,17 @@ func Gen(prop, tier string, seed, run uint64) Plan {
 	for i := range order {
 		order[i] = i
 	}
-	if r.IntN(4) == 0 {
+	reversed := false
+	if r.IntN(4) == 0 || prop == "C06" && r.IntN(2) == 0 {
+		// out of chronological order: streams get earlier packets later (reset
+		// streams; a stream first seen through a server packet even swaps its endpoints)
 		r.Shuffle(nf, func(i, j int) { order[i], order[j] = order[j], order[i] })
+		if r.IntN(2) == 0 {
+			for i := range order {
+				order[i] = nf - 1 - i
+			}
+			reversed = true
+		}
 	}
 	var impOps []Op
 	for i := 0; i < nf; {
@@ -335,6 +344,14 @@ func Gen(prop, tier string, seed, run uint64) Plan {
 				mutOps = append(mutOps, Op{C: CMut, K: []string{"Status", "ListConverters", "ListTags", "KnownPcaps", "ListEndpoints"}[r.IntN(5)]})
 			}
 		}
+	}
+	if reversed && nf > 1 {
+		// endpoint filters decided before the earlier capture arrives
+		pre := []Op{
+			{C: CMut, K: "AddTag", Name: "service/t", Color: "#654321", Def: "sport:80,443,1337,8080,31337,53"},
+			{C: CMut, K: "AddTag", Name: "tag/c", Color: "#654321", Def: []string{"cport:20000:40000", "chost:10.0.0.0/16", "shost:10.1.0.0/24 protocol:tcp"}[r.IntN(3)]},
+		}
+		mutOps = append(pre, mutOps...)
 	}
 	if useConv && (prop == "C16" || r.IntN(2) == 0) {
 		// make converter jobs happen: a simple tag that matches most streams with a converter attached early
